@@ -13,3 +13,4 @@ import EdxmlProps.C11
 import EdxmlProps.C03
 import EdxmlProps.C13
 import EdxmlProps.C10
+import EdxmlProps.C07
